@@ -6,7 +6,7 @@
 From Coq Require Import ZArith List Bool Lia.
 From PV Require Import Util.ListSet Util.Sumset BLS.Model BLS.Den Layout.Types
   Rules.Names Rules.NamesSpec Rules.NamesProofs Rules.Defn Rules.Accept Rules.Spec
-  Rules.ProofsLocal Rules.ProofsRun Rules.Proofs Rules.Boundaries.
+  Rules.ProofsLocal Rules.ProofsRun Rules.Proofs Rules.ProofsExtra Rules.Boundaries.
 Import ListNotations.
 Open Scope Z_scope.
 
@@ -32,6 +32,24 @@ Theorem C05_handlers : forall e i first depr0 sec b, (first = true -> depr0 = fa
   (run e i first (init_state depr0) sec = Some b <-> Positional e i first sec /\ b = summary depr0 sec).
 Proof. exact run_init. Qed.
 Print Assumptions C05_handlers.
+
+(* "exactly one of @sealed / @extent per schema": the two clauses of SectionRules amount to a unique position *)
+Theorem C05_exactly_one_mode : forall sec,
+  ((exists m, In m sec /\ IsMode m)
+   /\ (forall l1 m l2, sec = l1 ++ m :: l2 -> IsMode m -> Forall (fun s => ~ IsMode s) l1))
+  <-> exists l1 m l2, sec = l1 ++ m :: l2 /\ IsMode m
+                      /\ Forall (fun s => ~ IsMode s) l1 /\ Forall (fun s => ~ IsMode s) l2.
+Proof. exact exactly_one_mode. Qed.
+Print Assumptions C05_exactly_one_mode.
+
+(* a reference that resolves names a dependency with exactly that spelling and version, and no other dependency has
+   the same version and a name equal up to letter case *)
+Theorem C05_resolve : forall e i c M m p, resolve e i c M m = Some p ->
+  In p (e_deps e) /\ p_name p = resolve_name i c /\ p_major p = M /\ p_minor p = m
+  /\ (forall q, In q (e_deps e) -> map lower (p_name q) = map lower (resolve_name i c) ->
+                p_major q = M -> p_minor q = m -> q = p).
+Proof. exact resolve_spec. Qed.
+Print Assumptions C05_resolve.
 
 (* boundaries of the type parameters: width 0/1/64/65, signed 1/2/64/65 and never truncated, float 16/32/64 only,
    void 0/1/64/65, capacity 0/1 (and 1/2 for the exclusive form), 2^64-1 / 2^64 for the length prefix *)
